@@ -725,8 +725,8 @@ struct Enc {
                 }
                 v_gw = w;
                 m_gw = true;
-                v_gh = h;
-                m_gh = !square;  // same caveat for the height implied by a square
+                v_gh = h;       // a square sets geometry-h to its width (h == w here): the format says so explicitly
+                m_gh = true;
                 bool wx, wy;
                 int64_t vx, vy;
                 position(x, y, gx, gy, wx, wy, vx, vy);
